@@ -499,6 +499,21 @@ static void sc_log_errors_a_prep(void) { sc_log_errors_n(6); }
 static void sc_log_errors_b_prep(void) { sc_log_errors_n(7); }
 static void sc_log_errors_c_prep(void) { sc_log_errors_n(8); }
 
+/* more parameters than the request_params table holds at first (32): the insertion of the 33rd makes the table grow (a realloc that can fail) */
+static void sc_many_params_prep(void) {
+    fd_sc_reset(); fd_sc.urlenc = 1; fd_sc.multipart = 1; fd_sc.chunk = 2000;
+    Q("POST /p?a0=0&a1=1&a2=2&a3=3&a4=4&a5=5&a6=6&a7=7&a8=8&a9=9&b0=0&b1=1&b2=2&b3=3&b4=4&b5=5&b6=6&b7=7&b8=8&b9=9&c0=0&c1=1&c2=2&c3=3&c4=4&c5=5&c6=6&c7=7&c8=8&c9=9&d0=0&d1=1 HTTP/1.1\r\n"
+      "Host: a\r\nContent-Type: application/x-www-form-urlencoded\r\nContent-Length: 9\r\n\r\n");
+    Q("x=1&y=22");
+    Q("3");
+    S("HTTP/1.1 200 OK\r\nContent-Length: 0\r\n\r\n");
+    Q("POST /q?a0=0&a1=1&a2=2&a3=3&a4=4&a5=5&a6=6&a7=7&a8=8&a9=9&b0=0&b1=1&b2=2&b3=3&b4=4&b5=5&b6=6&b7=7&b8=8&b9=9&c0=0&c1=1&c2=2&c3=3&c4=4&c5=5&c6=6&c7=7&c8=8&c9=9&d0=0&d1=1 HTTP/1.1\r\n"
+      "Host: a\r\nContent-Type: multipart/form-data; boundary=BB\r\nContent-Length: 61\r\n\r\n");
+    Q("--BB\r\nContent-Disposition: form-data; name=\"z\"\r\n\r\nv\r\n--BB--\r\n");
+    S("HTTP/1.1 200 OK\r\nContent-Length: 0\r\n\r\n");
+    fd_op('c', NULL, 0);
+}
+
 /* ---- hybrid API */
 #define H(x) do { htp_status_t _r = (x); fd_note(_r == HTP_OK ? "k" : (_r == HTP_ERROR ? "e" : "o")); } while (0)
 /* a hybrid-API user stops working on a transaction at the first HTP_ERROR */
@@ -680,6 +695,7 @@ static fd_scenario_t fd_scenarios[] = {
     { "hooks_runtime", sc_hooks_runtime_prep, fd_run_script },
     { "connect", sc_connect_prep, fd_run_script },
     { "hostport_forms", sc_hostport_forms_prep, fd_run_script },
+    { "many_params", sc_many_params_prep, fd_run_script },
     { "log_errors_a", sc_log_errors_a_prep, fd_run_script },
     { "log_errors_b", sc_log_errors_b_prep, fd_run_script },
     { "log_errors_c", sc_log_errors_c_prep, fd_run_script },
